@@ -3,4 +3,4 @@
 Require Import ExtrOcamlBasic.
 Require Import GC.Extract.Wrap.
 Extraction "kdf.ml" x_md5crypt x_md5crypt_spec x_sha256crypt x_sha256crypt_spec x_sha512crypt x_sha512crypt_spec
-  x_sha1crypt x_sunmd5 x_nt_encode x_bcrypt x_bcrypt_spec x_des x_desext.
+  x_sha1crypt x_sunmd5 x_nt_encode x_bcrypt x_bcrypt_spec x_des x_desext x_argon2 x_argon2_block x_argon2_index.
